@@ -16,6 +16,8 @@ package certmagic
 
 import (
 	"context"
+	"errors"
+	"io/fs"
 	"path"
 	"regexp"
 	"strings"
@@ -163,13 +165,29 @@ type KeyInfo struct {
 	IsTerminal bool // false for directories (keys that act as prefix for other keys)
 }
 
-// storeTx stores all the values or none at all.
+// storeTx stores all the values or none at all. If a value
+// cannot be stored, the keys already written are put back to
+// what they held before (or deleted if they did not exist).
 func storeTx(ctx context.Context, s Storage, all []keyValue) error {
+	// remember the values that are about to be replaced
+	previous := make([]*keyValue, len(all))
+	for i, kv := range all {
+		value, err := s.Load(ctx, kv.key)
+		if err == nil {
+			previous[i] = &keyValue{key: kv.key, value: value}
+		} else if !errors.Is(err, fs.ErrNotExist) {
+			return err
+		}
+	}
 	for i, kv := range all {
 		err := s.Store(ctx, kv.key, kv.value)
 		if err != nil {
 			for j := i - 1; j >= 0; j-- {
-				s.Delete(ctx, all[j].key)
+				if previous[j] != nil {
+					s.Store(ctx, previous[j].key, previous[j].value)
+				} else {
+					s.Delete(ctx, all[j].key)
+				}
 			}
 			return err
 		}
